@@ -37,6 +37,14 @@ def main():
     seed = int(os.environ.get('VERIF_SEED', '1'))
     tier = a.tier if a.tier in ('quick', 'thorough') else 'quick'
     ctx = common.Ctx(a.prop, tier, seed)
+    # source watch: code that differs from the recorded tree redirects the sampling (never an alarm by itself)
+    try:
+        import srcwatch
+        import gen
+        ctx.src_changes = srcwatch.changed()
+        gen.FOCUS = srcwatch.focus(ctx.src_changes)
+    except Exception as e:
+        ctx.src_changes = ['<source watch failed: %r>' % (e,)]
     eng = engine_for(a.prop)
     replay = json.load(open(a.replay)) if a.replay else None
     try:
